@@ -7,6 +7,7 @@
   hold for every assignment.
 -/
 import AnnVerif.Lemmas.Admin
+import AnnVerif.Lemmas.AdminLast
 namespace AnnVerif.C14
 open AnnVerif AnnVerif.ValSet AnnVerif.Admin
 open Classical
@@ -191,6 +192,16 @@ theorem change_order_matters :
     (applyChanges ⟨w4, none, 0⟩ [⟨.update, [1], 5⟩, ⟨.update, [1], 7⟩]).map (fun vs => powerOf vs.vals [1]) = some (some 7) ∧
     (applyChanges ⟨w4, none, 0⟩ [⟨.update, [1], 7⟩, ⟨.update, [1], 5⟩]).map (fun vs => powerOf vs.vals [1]) = some (some 5) := by
   decide
+
+/-- C14.7 THE LAST CHANGE WINS, for every block: whatever the block's earlier accepted changes did -
+    to this node or to others -, if the last one is "update a to p" (a a member by then), the next
+    validator set holds a with power p. A replica applying the changes in any order in which another
+    change of a comes last ends with another power (C14.6) -/
+theorem the_last_accepted_change_decides (vs vs' : ValSet.ValSet) (cs : List Change) (a : Bytes) (p : Int)
+    (h : applyChanges vs (cs ++ [⟨.update, a, p⟩]) = some vs')
+    (hm : ∀ mid, applyChanges vs cs = some mid → (powerOf mid.vals a).isSome) :
+    powerOf vs'.vals a = some p :=
+  Admin.last_update_wins vs vs' cs a p h hm
 
 /-! ### non-vacuity -/
 example : NodupAddr w4 := by simp [NodupAddr, w4]
